@@ -41,6 +41,15 @@ Theorem C19_no_assertion_error : forall mem nh nl, find_place mem nh nl <> Err A
 Proof. exact find_place_no_assertion. Qed.
 Print Assumptions C19_no_assertion_error.
 
+(* the executable checker that the correspondence check evaluates on the arrays returned by the implementation
+   (Corr.check_spec) decides exactly the specification of C19_decision *)
+Require Import QV.C19.ProofsSpec.
+Theorem C19_checker_decides_spec : forall mem new_hashes new_lens d,
+  length new_hashes = length new_lens ->
+  (decision_okb mem new_hashes new_lens d = true <-> decision_ok mem new_hashes new_lens d).
+Proof. exact decision_okb_iff. Qed.
+Print Assumptions C19_checker_decides_spec.
+
 (* ------------------------------------------------------------------------------------------------------------- *)
 (* DRIVER PART.  Driver.v models the bookkeeping of qupulse/hardware/awgs/tabor.py::TaborChannelPair by hand (the file
    needs tabor_control, which is not installed).  The model is tied to the source only through a correspondence check
